@@ -123,7 +123,8 @@ def run(ctx):
             ctx.violation('impl-violation', input=text, finding=f['kind'], chain=f['chain'], detail=f.get('via') or f.get('node'),
                           observed=f"{f['kind']} by {' -> '.join(f['chain'])}",
                           expected='no proposal leaves the input unchanged, no chain of proposals leads back to an input already visited, every proposal is delivered in bounded time',
-                          finding_key=None, how_to_replay='./check C03 --replay <file>')
+                          finding_key=('cycle:' + '+'.join(sorted(set(f['chain'])))) if 'cycle' in f['kind'] else None,
+                          how_to_replay='./check C03 --replay <file>')
     ctx.count('first-level proposals', tot['proposals'])
     ctx.count('second/third-level proposals', tot['explored'])
     # real runs: whole-input revisits are reported by ddSMT's own --check-loops; non-termination by the watchdog
